@@ -197,6 +197,8 @@ def fuzz(b, eps, up):
     """The documented adjustment: a proportion eps of the bound, away from the data side."""
     if isinstance(b, (datetime.datetime, datetime.date, str)):
         return b
+    if eps == 0:
+        return b            # no tolerance: the bound itself, exactly (also for integers beyond 2**53)
     if up:
         return b * ((1 + eps) if b >= 0 else (1 - eps))
     return b * ((1 - eps) if b >= 0 else (1 + eps))
